@@ -1,6 +1,7 @@
 import GcArena.Proofs.Quiet
 import GcArena.Proofs.Protocol
 import GcArena.Proofs.GrayMono
+import GcArena.Proofs.RunBridge
 /-!
 # C08 — Collection-phase protocol of the Arena API
 
@@ -281,6 +282,233 @@ theorem callbacks_move_phase_only_marked_to_marking {a : Arena} (h : Inv a) (op 
   | sleep => left; rfl
   | drop => left; rfl
 
+
+/-! ### The observable phase (`Arena::collection_phase`) under collector steps -/
+
+/-- The values of `CollectionPhase` (src/arena.rs), plus the model's marker for a dropped arena. -/
+inductive Obs where
+  | sleeping | marking | marked | sweeping | dropped
+  deriving DecidableEq, Repr
+
+def Obs.name : Obs → String
+  | .sleeping => "Sleeping" | .marking => "Marking" | .marked => "Marked"
+  | .sweeping => "Sweeping" | .dropped => "Dropped"
+
+theorem Obs.name_inj {x y : Obs} (h : x.name = y.name) : x = y := by
+  cases x <;> cases y <;> first | rfl | (exact absurd h (by decide))
+
+/-- `Arena::collection_phase` as a function of the context. -/
+def obs (c : Ctx) : Obs :=
+  match c.phase with
+  | .mark => if c.grayRemaining then .marking else .marked
+  | .sweep => .sweeping
+  | .sleep => .sleeping
+  | .drop => .dropped
+
+/-- `Arena.collectionPhase` (the string the harness compares with `Arena::collection_phase()`)
+    is the name of `obs`. -/
+theorem collectionPhase_eq (a : Arena) : a.collectionPhase = (obs a.ctx).name := by
+  unfold Arena.collectionPhase obs
+  cases a.ctx.phase with
+  | mark => simp only; split <;> rfl
+  | sweep => rfl
+  | sleep => rfl
+  | drop => rfl
+
+theorem obs_marking {c : Ctx} (hp : c.phase = .mark) (hg : c.grayRemaining = true) :
+    obs c = .marking := by simp [obs, hp, hg]
+
+theorem obs_marked {c : Ctx} (hp : c.phase = .mark) (hg : c.grayRemaining = false) :
+    obs c = .marked := by simp [obs, hp, hg]
+
+theorem obs_sweeping {c : Ctx} (hp : c.phase = .sweep) : obs c = .sweeping := by simp [obs, hp]
+
+theorem obs_sleeping {c : Ctx} (hp : c.phase = .sleep) : obs c = .sleeping := by simp [obs, hp]
+
+/-- `Sleep → Mark`: from Sleeping the wake-up gives Marking, never Marked at once (the root flag
+    is set while asleep: invariant clause `sleepRoot`). -/
+theorem wake_observable {c c' : Ctx} {root : List Slot} (hinv : CInv c root [])
+    (hs : c.micro root .wake = some c') : obs c = .sleeping ∧ obs c' = .marking := by
+  simp only [Ctx.micro] at hs
+  split at hs
+  · cases hs; rename_i hp
+    refine ⟨obs_sleeping hp, obs_marking rfl ?_⟩
+    have hr : (c.switch .mark).rootNeedsTrace = true := hinv.sleepRoot hp
+    simp [Ctx.grayRemaining, hr]
+  · cases hs
+
+/-- A `mark_one` that traces something is taken only while Marking; it leads to Marking or
+    Marked, and to Marked exactly when both queues are empty and the root flag is clear
+    afterwards. -/
+theorem markStep_observable {c c' : Ctx} {root : List Slot} {f : Option Nat} (hinv : CInv c root [])
+    (hs : c.micro root (.markStep f) = some c') :
+    obs c = .marking ∧ (obs c' = .marking ∨ obs c' = .marked) ∧
+    (obs c' = .marked ↔ (c'.gray = [] ∧ c'.grayAgain = [] ∧ c'.rootNeedsTrace = false)) := by
+  simp only [Ctx.micro] at hs
+  split at hs
+  · cases hs; rename_i hp
+    simp only [Bool.and_eq_true, decide_eq_true_eq] at hp
+    have hp' : (c.markOne root f).1.phase = .mark := (markOne_spec hinv hp.1 f).2.phase.trans hp.1
+    refine ⟨obs_marking hp.1 hp.2, ?_, ?_⟩
+    · cases hg : (c.markOne root f).1.grayRemaining with
+      | true => exact Or.inl (obs_marking hp' hg)
+      | false => exact Or.inr (obs_marked hp' hg)
+    · cases hg : (c.markOne root f).1.grayRemaining with
+      | true =>
+        rw [obs_marking hp' hg]
+        constructor
+        · intro h; cases h
+        · rintro ⟨h1, h2, h3⟩
+          simp [Ctx.grayRemaining, h1, h2, h3] at hg
+      | false =>
+        rw [obs_marked hp' hg]
+        simp only [Ctx.grayRemaining, Bool.or_eq_false_iff, Bool.not_eq_false', List.isEmpty_iff] at hg
+        exact ⟨fun _ => ⟨hg.1.1, hg.1.2, hg.2⟩, fun _ => rfl⟩
+  · cases hs
+
+/-- The `mark_one` that finds nothing to do is taken only when Marked, and changes nothing
+    observable. -/
+theorem markBreak_observable {c c' : Ctx} {root : List Slot}
+    (hs : c.micro root .markBreak = some c') : obs c = .marked ∧ obs c' = .marked := by
+  simp only [Ctx.micro] at hs
+  split at hs
+  · cases hs; rename_i hp
+    simp only [Bool.and_eq_true, decide_eq_true_eq, Bool.not_eq_true'] at hp
+    rw [markOne_break _ hp.2]
+    exact ⟨obs_marked hp.1 hp.2, obs_marked hp.1 hp.2⟩
+  · cases hs
+
+/-- `Mark → Sweep` is taken only when Marked and gives Sweeping. -/
+theorem toSweep_observable {c c' : Ctx} {root : List Slot}
+    (hs : c.micro root .toSweep = some c') : obs c = .marked ∧ obs c' = .sweeping := by
+  simp only [Ctx.micro] at hs
+  split at hs
+  · cases hs; rename_i hp
+    simp only [Bool.and_eq_true, decide_eq_true_eq, Bool.not_eq_true'] at hp
+    exact ⟨obs_marked hp.1 hp.2, obs_sweeping rfl⟩
+  · cases hs
+
+/-- Sweep steps (an object visited, or the end of the list found) keep Sweeping. -/
+theorem sweepStep_observable {c c' : Ctx} {root : List Slot} {m : Micro} (hinv : CInv c root [])
+    (hm : m = .sweepStep ∨ m = .sweepEnd) (hs : c.micro root m = some c') :
+    obs c = .sweeping ∧ obs c' = .sweeping := by
+  rcases hm with rfl | rfl
+  all_goals
+    simp only [Ctx.micro] at hs
+    split at hs
+    · cases hs; rename_i hp
+      simp only [Bool.and_eq_true, decide_eq_true_eq] at hp
+      exact ⟨obs_sweeping hp.1, obs_sweeping (sweepOne_spec hinv hp.1).2⟩
+    · cases hs
+
+/-- `Sweep → Sleep` is taken only while Sweeping and gives Sleeping. -/
+theorem toSleep_observable {c c' : Ctx} {root : List Slot} {b : Bool}
+    (hs : c.micro root (.toSleep b) = some c') : obs c = .sweeping ∧ obs c' = .sleeping := by
+  simp only [Ctx.micro] at hs
+  split at hs
+  · cases hs; rename_i hp
+    simp only [Bool.and_eq_true, decide_eq_true_eq] at hp
+    exact ⟨obs_sweeping hp.1, obs_sleeping rfl⟩
+  · cases hs
+
+/-- One step along `Sleeping → Marking → Marked → Sweeping → Sleeping`, or none. -/
+inductive ObsStep : Obs → Obs → Prop
+  | same (s : Obs) : ObsStep s s
+  | wake : ObsStep .sleeping .marking
+  | marked : ObsStep .marking .marked
+  | sweep : ObsStep .marked .sweeping
+  | sleep : ObsStep .sweeping .sleeping
+
+/-- Each collector micro-step leaves the observable phase or moves it one arrow forward. -/
+theorem micro_observable_order {c c' : Ctx} {root : List Slot} (hinv : CInv c root []) (m : Micro)
+    (hs : c.micro root m = some c') : ObsStep (obs c) (obs c') := by
+  cases m with
+  | wake => obtain ⟨h1, h2⟩ := wake_observable hinv hs; rw [h1, h2]; exact .wake
+  | markStep f =>
+    obtain ⟨h1, h2, _⟩ := markStep_observable hinv hs
+    rw [h1]
+    rcases h2 with h2 | h2 <;> rw [h2]
+    · exact .same _
+    · exact .marked
+  | markBreak => obtain ⟨h1, h2⟩ := markBreak_observable hs; rw [h1, h2]; exact .same _
+  | toSweep => obtain ⟨h1, h2⟩ := toSweep_observable hs; rw [h1, h2]; exact .sweep
+  | sweepStep => obtain ⟨h1, h2⟩ := sweepStep_observable hinv (Or.inl rfl) hs; rw [h1, h2]; exact .same _
+  | sweepEnd => obtain ⟨h1, h2⟩ := sweepStep_observable hinv (Or.inr rfl) hs; rw [h1, h2]; exact .same _
+  | toSleep b => obtain ⟨h1, h2⟩ := toSleep_observable hs; rw [h1, h2]; exact .sleep
+
+/-- No collector micro-step turns Marked back into Marking (only callbacks do:
+    `callbacks_move_phase_only_marked_to_marking`). -/
+theorem collector_never_unmarks {c c' : Ctx} {root : List Slot} (hinv : CInv c root []) (m : Micro)
+    (hs : c.micro root m = some c') (hm : obs c = .marked) : obs c' ≠ .marking := by
+  have := micro_observable_order hinv m hs
+  rw [hm] at this
+  intro he
+  rw [he] at this
+  cases this
+
+/-- **Order of the observable phase.**  Along any sequence of collector micro-steps — hence
+    inside every collection call, whatever `RunUntil` / `Stop` / debt / fault position — each
+    step leaves `collection_phase()` unchanged or moves it along
+    `Sleeping → Marking → Marked → Sweeping → Sleeping`. -/
+theorem observable_phase_order {root : List Slot} (ms1 : List Micro) (m : Micro) {c c1 c2 : Ctx}
+    (hinv : CInv c root []) (h1 : c.micros root ms1 = some c1) (h2 : c1.micro root m = some c2) :
+    ObsStep (obs c1) (obs c2) :=
+  micro_observable_order (micros_inv ms1 hinv h1) m h2
+
+/-! ### The same facts about the API operations -/
+
+/-- `Arena::finish_marking` (self-driven, outside callbacks, on any reachable state) returns
+    `Some(MarkedArena)` exactly when the arena was not Sweeping — whatever the client then does
+    with the result. -/
+theorem finish_marking_some_iff_run (n : Nat) (pre : List Op) (k : Cont) :
+    let a := (Arena.new n).run pre
+    a.alive = true → a.cb = none →
+    ((a.step (.collect .finishMarking k none none)).2 = "some" ↔ a.collectionPhase ≠ "Sweeping") := by
+  intro a halive hcb
+  have h : Inv a := inv_run n pre halive
+  have h0 := h.cinv0 hcb
+  have hnot : (!a.alive) = false := by rw [halive]; rfl
+  have hret := doCollection_returns h0 .stop .fullyMarked
+  have hiff := finish_marking_some_iff a.ctx a.root h0
+  have hobs : a.collectionPhase ≠ "Sweeping" ↔ a.ctx.phase ≠ .sweep := by
+    unfold Arena.collectionPhase
+    cases hp : a.ctx.phase with
+    | mark => simp only; split <;> simp
+    | sweep => simp
+    | sleep => simp
+    | drop => simp
+  rw [hobs, ← hiff]
+  unfold Arena.step
+  rw [hnot]
+  simp only [Bool.false_eq_true, if_false, Arena.stepBody, hcb, Option.isSome_none, Arena.splitOracle,
+    Arena.runCollector, Arena.methodArgs]
+  rw [show (a.ctx.doCollection a.root .stop .fullyMarked none) =
+    ((a.ctx.doCollection a.root .stop .fullyMarked none).1, (a.ctx.doCollection a.root .stop .fullyMarked none).2) from rfl,
+    hret]
+  simp only [Arena.marked?]
+  cases hm : Arena.isMarked (a.ctx.doCollection a.root .stop .fullyMarked none).1 with
+  | false => cases k <;> simp_all
+  | true =>
+    cases k with
+    | drop => simp_all
+    | finalize => simp_all
+    | sweep =>
+      have hsw := start_sweeping_ends_sweeping _ a.root hm
+      simp [Arena.startSweeping, Arena.runCollector, hsw]
+
+/-- `Arena::finish_cycle` (self-driven, outside callbacks, on any reachable state, from every
+    phase) ends Sleeping. -/
+theorem finish_cycle_ends_sleeping_run (n : Nat) (pre : List Op) (k : Cont) :
+    let a := (Arena.new n).run pre
+    a.alive = true → a.cb = none →
+    (a.step (.collect .finishCycle k none none)).1.collectionPhase = "Sleeping" := by
+  intro a halive hcb
+  have h : Inv a := inv_run n pre halive
+  rw [step_finishCycle h hcb k, collectionPhase_eq]
+  show (obs (a.ctx.doCollection a.root .stop .finishCycle none).1).name = "Sleeping"
+  rw [obs_sleeping (finish_cycle_ends_sleeping a.ctx a.root (h.cinv0 hcb))]
+  rfl
+
 /-! ### Non-vacuity -/
 
 /-- A state with work left in every queue satisfies the hypotheses of the three loop theorems. -/
@@ -321,5 +549,28 @@ example :
     let a := ((Arena.new 1).run markedDemo).run [.barrier (.bb 0 none)]
     a.ctx.grayRemaining = true ∧ (a.run [.store .raw 0 0 none, .alloc true [none], .leave]).collectionPhase = "Marking" := by
   decide
+
+/-- The API-level theorems apply to a concrete reachable state (asleep, root → 0): the self-driven
+    `finish_marking` returns `Some`, and the kernel agrees by evaluation; `finish_cycle` ends
+    Sleeping; while Sweeping `finish_marking` returns `None`. -/
+example : (((Arena.new 1).run (markedDemo.take 4)).step (.collect .finishMarking .drop none none)).2 = "some" :=
+  (finish_marking_some_iff_run 1 (markedDemo.take 4) .drop (by decide) (by decide)).mpr (by decide)
+example : (((Arena.new 1).run (markedDemo.take 4)).step (.collect .finishMarking .drop none none)).2 = "some" := by
+  decide
+example : (((Arena.new 1).run (markedDemo.take 5)).step (.collect .finishCycle .drop none none)).1.collectionPhase
+    = "Sleeping" := finish_cycle_ends_sleeping_run 1 (markedDemo.take 5) .drop (by decide) (by decide)
+example :
+    let a := (Arena.new 1).run (markedDemo.take 4 ++ [.collect .finishMarking .sweep none none])
+    a.collectionPhase = "Sweeping" ∧ (a.step (.collect .finishMarking .drop none none)).2 = "none" := by decide
+
+/-- Every arrow of `ObsStep` is taken by the oracle run of `markedDemo`'s cycle. -/
+example :
+    let a := (Arena.new 1).run (markedDemo.take 4)
+    let st := fun (ms : List Micro) => (a.ctx.micros a.root ms).map obs
+    st [] = some .sleeping ∧ st [.wake] = some .marking ∧ st [.wake, .markStep none] = some .marking ∧
+    st [.wake, .markStep none, .markStep none] = some .marked ∧
+    st [.wake, .markStep none, .markStep none, .markBreak, .toSweep] = some .sweeping ∧
+    st [.wake, .markStep none, .markStep none, .markBreak, .toSweep, .sweepStep, .sweepEnd, .toSleep true]
+      = some .sleeping := by decide
 
 end GcArena.C08
